@@ -41,12 +41,15 @@ INFALLIBLE_EXCEPTIONS = {
 }
 
 
-def leak_rules(prog, rep):
+def leak_rules(prog, rep, only_files=None):
+    """only_files: analyse just the functions defined in these files (acquirers are still discovered over the whole program)."""
     acq = own.discover_acquirers(prog)
     L = own.Leak(prog, acq)
     N = own.NullChk(prog, acq)
     nsites = 0
     for f in prog.all_funcs():
+        if only_files is not None and f.file not in only_files:
+            continue
         sites, leaks = L.analyze(f)
         dang = list(L.dangling)
         per_site = {}
